@@ -55,6 +55,13 @@ CHECKS['C17'] = dict(
     note='Trusted: CrossHair+z3 and the MemFS model (buffered writes, atomic rename on one file system, non-atomic copyfile). Outside: real kernel/power-loss ordering, staging dir on another file system.',
     technique='symbolic execution (CrossHair/z3) over symbolic fault/crash indices on a file-system model',
     design='3/C17')
+CHECKS['C06'] = dict(
+    category='other',
+    text='Bounded symbolic execution (CrossHair/z3) of the real measurement stack (Collection, Measurement, MeasuredValue, DimensionedMeasuredValue, PhaseState.from_descriptor/_finalize_measurements/_measurements_pass/_marginal, real in_range/equals/pivot validators) '
+         'over symbolic assignment histories: recorded value = transform(last), outcome UNSET/PASS/FAIL and marginal recomputed from scratch, per-coordinate overrides in first-assignment order, rejected assignments change nothing, raising validators, conditional validators, no PARTIALLY_SET after phase end.',
+    note='Trusted: CrossHair+z3, the from-scratch oracle in props/C06.py, a fake TestState/diagnoses store. Histories <=2 scalar (3 thorough) / <=2 dimensioned (3 thorough) assignments; int/None values; limits symbolic.',
+    technique='symbolic execution (CrossHair/z3) of assignment histories vs from-scratch oracle',
+    design='3/C06')
 NA_REASON = {}
 DEFAULT_NA = 'check not built yet in this round (work in progress; see DESIGN.md section 6 for the plan)'
 
